@@ -108,7 +108,7 @@ func vAbsDecimal(d *decimal, lit []byte) {
 }
 
 // vAssertHalfwayFits, natively: the exact decimal literal of the midpoint above man*2^e2 must parse to
-// man*2^e2 (man is even: ties go to even) through ParseJSONFloatPrefix.
+// the even one of man*2^e2 and (man+1)*2^e2 through ParseJSONFloatPrefix.
 func vAssertHalfwayFits(n int, man uint64, e2 int, id string) {
 	odd := new(big.Int).SetUint64(man)
 	odd.Lsh(odd, 1)
@@ -127,7 +127,11 @@ func vAssertHalfwayFits(n int, man uint64, e2 int, id string) {
 		lit = new(big.Int).Lsh(odd, uint(-q)).String()
 	}
 	f, nn, err := ParseJSONFloatPrefix([]byte(lit))
-	want := math.Ldexp(float64(man), e2)
+	even := man
+	if man&1 == 1 {
+		even = man + 1
+	}
+	want := math.Ldexp(float64(even), e2)
 	if err != nil || nn != len(lit) || math.Float64bits(f) != math.Float64bits(want) {
 		vFailures = append(vFailures, id)
 	}
